@@ -11,7 +11,8 @@
 (***************************************************************************)
 EXTENDS RobddOps
 
-CONSTANTS NV
+CONSTANTS NV,
+          FixedRepair     \* TRUE: fix_import rebuilds the dependency list (repaired, F13); FALSE: as shipped, it appends a second copy
 
 VARIABLES O, C, has, lastO, lastC
 
@@ -47,6 +48,13 @@ Do(op, a, b, v, val) ==
             ELSE C' = C /\ lastC' = x.r
   /\ UNCHANGED has
 
+\* the documented repair step on a LIVE store (a public call like any other): the dependency list is regenerated - as shipped
+\* onto the end of the existing one; existing count-cache entries are kept (modelcount_memoization returns what is cached)
+RepairLive(S) == [S EXCEPT !.deps = IF ~VariableList THEN @
+                                    ELSE IF FixedRepair THEN RegenDeps(S.nodes, 1, <<>>)
+                                    ELSE RegenDeps(S.nodes, 1, @)]
+Repair == /\ O' = RepairLive(O) /\ C' = (IF has THEN RepairLive(C) ELSE C) /\ UNCHANGED <<has, lastO, lastC>>
+
 Import == /\ C' = ImportFix(O) /\ has' = TRUE /\ lastC' = lastO /\ UNCHANGED <<O, lastO>>
 Reb    == /\ C' = Rebuild(O)   /\ has' = TRUE /\ lastC' = lastO /\ UNCHANGED <<O, lastO>>
 
@@ -55,7 +63,7 @@ Next ==
   \/ \E a \in Handles(O) : Do("not", a, 0, 0, FALSE)
   \/ \E a, b \in Handles(O), op \in {"and", "or", "imp", "iff", "xor"} : Do(op, a, b, 0, FALSE)
   \/ \E a \in Handles(O), v \in 0..(NV - 1), val \in BOOLEAN : Do("restrict", a, 0, v, val)
-  \/ Import \/ Reb
+  \/ Import \/ Reb \/ Repair
 
 Spec == Init /\ [][Next]_vars
 
@@ -65,8 +73,10 @@ CopyOK == has => /\ UniqOK(C) /\ CachesOK(C, NV) /\ DepsOK(C, NV)
                  /\ (VariableList => C.deps = O.deps)
                  /\ (AdHocCounting => DOMAIN C.cnt = Handles(C) /\
                         \A h \in Handles(C) : SubSeq(C.cnt[h], 3, 5) = SubSeq(O.cnt[h], 3, 5))
+\* the original stays a proper store whatever is called on it (the repair step included)
+OrigOK == UniqOK(O) /\ CachesOK(O, NV) /\ DepsOK(O, NV)
 \* Rebuild reproduces exactly the canonical tables (follows from Reduced /\ NoDup)
 RebuildExact == Rebuild(O).nodes = O.nodes
 
-View == << { Den(O, h, NV) : h \in Handles(O) }, has >>
+View == << { Den(O, h, NV) : h \in Handles(O) }, has, Len(O.deps) = Size(O), has => (Len(C.deps) = Size(C)) >>
 =============================================================================
